@@ -117,7 +117,8 @@ def shell_eval(X, cmd, dialect):
     cmds = model[1]
     exact = all(not w.inexact for c in cmds for w in c.argv)
     if exact:
-        margv = [[shmodel.to_bytes(w) for w in c.argv] for c in cmds]
+        # only the stub programs report back; other command names the model sees ("command not found" in the real shell) are compared by count only
+        margv = [[shmodel.to_bytes(w) for w in c.argv] for c in cmds if c.argv and c.argv[0] in ("curl", "http")]
         rargv = [a for a, _ in inv]
         if margv != rargv:
             raise AssertionError(f"shell model disagrees with {sh} on {cmd!r}: model {margv} real {rargv} ({err!r})")
@@ -392,7 +393,7 @@ RAW_VALUE_ALPHA = [c for c in ALPHA if c not in ("\n",)]
 RAW_PATH_ALPHA = [c for c in ALPHA if c not in ("\n", " ", "\t")]
 
 
-def h_raw(X, maxlen):
+def h_raw(X, maxlen, alpha_filter=None):
     from mitmproxy.addons import export
 
     field = X.choose("field", ["method", "header_name", "header_value", "path", "body"])
@@ -402,13 +403,15 @@ def h_raw(X, maxlen):
     elif field == "header_name":
         hname = X.choose("name", RAW_NAMES)
     elif field == "header_value":
-        hval = _string(X, RAW_VALUE_ALPHA, maxlen)
+        hval = _string(X, [c for c in RAW_VALUE_ALPHA if alpha_filter is None or c in alpha_filter], maxlen)
         # a field value has no leading / trailing blanks on the wire (RFC 9110 5.5)
         X.assume(hval == hval.strip(" \t"))
     elif field == "path":
-        path = _string(X, RAW_PATH_ALPHA, maxlen)
+        path = _string(X, [c for c in RAW_PATH_ALPHA if alpha_filter is None or c in alpha_filter], maxlen)
     else:
-        body = _string(X, ALPHA, maxlen)
+        body = _string(X, [c for c in ALPHA if alpha_filter is None or c in alpha_filter], maxlen)
+        # a body longer than 15 bytes makes the chunk-size / Content-Length digits base-sensitive
+        body += X.choose("body_tail", ["", "0123456789abcdefghijklmnop"])
     coding = X.choose("content_encoding", [None, "gzip", "gzip-invalid"])
     chunked = X.boolean("chunked")
     absolute = X.boolean("absolute_form")
@@ -475,11 +478,15 @@ def obligations(tier):
         Symx("curl-options", h_resolve,
              bounds="export_preserve_original_ip on/off x server peername {none, 192.168.0.1, equal to host, ::1} x Host header {none, other.example:81, same} x GET/POST x body/no body "
                     "x accept-encoding", encoded=ENCODED[:5], must_reach=["exported", "resolve", "curl-decoded"]),
-        Symx("raw-reparse", lambda X: h_raw(X, 2 if q else 3),
-             bounds=f"raw_request of representable requests: method from {RAW_METHODS}, header name from {RAW_NAMES}, header value / path / body = strings of <= {2 if q else 3} characters over "
+        Symx("raw-reparse", lambda X: h_raw(X, 1 if q else 2),
+             bounds=f"raw_request of representable requests: method from {RAW_METHODS}, header name from {RAW_NAMES}, header value / path / body = strings of <= {1 if q else 2} characters over "
                     "the alphabet (no CR/LF in values, no blanks in the target) x Content-Encoding none / gzip / undecodable gzip x chunked x origin/absolute form; re-parsed by vf/refs/http1ref.py",
              encoded=ENCODED[4:7], must_reach=["exported", "decoded-body", "chunked"], parallel_depth=3),
     ]
+    if not q:
+        obs.append(Symx("raw-reparse-len3", lambda X: h_raw(X, 3, set(ALPHA_SMALL + ["é", "\x85", "#", "?"])),
+                        bounds="raw_request re-parse with header value / path / body strings of <= 3 characters over the reduced alphabet, same other selectors",
+                        encoded=ENCODED[4:7], must_reach=["exported", "decoded-body", "chunked"], parallel_depth=3))
     if shmodel.detect_dialect("/bin/sh") == "dash":
         obs.append(Symx("posix-sh-dialect", lambda X: h_posix(X, ALPHA, 2),
                         bounds="curl / httpie export of a request whose body is any string of <= 2 alphabet characters, evaluated with the POSIX-only dialect of the model (this "
